@@ -1052,6 +1052,10 @@ def run(ctx):
         big_done += 1
         dist["n"][c["n"]] = dist["n"].get(c["n"], 0) + 1
         dist["big_cases"] = dist.get("big_cases", 0) + 1
+        bstream = "big:" + (c.get("stream") or "")
+        bstatus = "ok" if not fails else ("modelled-defect" if clauses else "spec-fail")
+        streams.setdefault(bstream, {})
+        streams[bstream][bstatus] = streams[bstream].get(bstatus, 0) + 1
         if fails:
             res = {"status": "modelled-defect" if clauses else "spec-fail", "spec_fails": fails, "mismatch": [],
                    "clauses": clauses}
@@ -1106,7 +1110,7 @@ def run(ctx):
         "distributions": dist,
         "streams": {
             "outcomes_by_stream": streams,
-            "contract_stream_excused": streams.get("contract", {}).get("modelled-defect", 0),
+            "contract_stream_excused": streams.get("contract", {}).get("modelled-defect", 0) + streams.get("big:contract", {}).get("modelled-defect", 0),
             "defect_stream_reproduced_label": produced,
             "recorded_witness_reproduced": witness_seen,
             "recorded_clauses_not_reproduced_by_witness": obsolete,
